@@ -109,6 +109,8 @@ def main(ctx, cases=None):
                 if sw in table and table[sw] <= tol and proofs_ok and not corr_bad:
                     fid = f_id      # (never attributed when model and code disagree: the model's counterfactuals then say nothing about the code)
                     break
+            if fid is None and proofs_ok and not corr_bad and (r.warn[0] > 0 or s.warn[0] > 0):
+                fid = "type1-quadrature-unconverged"   # the library itself reported a type-1 quadrature that did not converge
             out.append({"case": r.case, "request": pl.fmt_case(r.case), "error": d, "allowed": tol, "attributed_to": fid, "counterfactual_asymmetry": table,
                         "what": "block (LA=%d, LB=%d, ECP L=%d, %s) and the transpose of the block with the shells exchanged differ by %.3g (allowed %.3g)" % (
                             r.case["A"]["l"], r.case["B"]["l"], max(p[1] for p in r.case["ecp"]["prims"]), "/".join(r.case.get("kind", [])), d, tol)})
